@@ -198,7 +198,7 @@ func (opts GeneratorOptions) genScalarFieldValue(t *rapid.T, field protoreflect.
 	case protoreflect.EnumKind:
 		enumValues := field.Enum().Values()
 		val := rapid.Int32Range(0, int32(enumValues.Len()-1)).Draw(t, name)
-		return protoreflect.ValueOfEnum(protoreflect.EnumNumber(val))
+		return protoreflect.ValueOfEnum(enumValues.Get(int(val)).Number())
 	case protoreflect.StringKind:
 		return protoreflect.ValueOfString(rapid.String().Draw(t, name))
 	default:
@@ -295,4 +295,5 @@ func (opts GeneratorOptions) genFieldMask(t *rapid.T, msg protoreflect.Message) 
 	for _, path := range paths {
 		pathsList.Append(protoreflect.ValueOfString(path))
 	}
+	msg.Set(pathsField, protoreflect.ValueOfList(pathsList))
 }
